@@ -30,6 +30,15 @@ pub enum SizeError {
     #[error("Invalid ekey_size: must be 1-16, got {0}")]
     InvalidEKeySize(u8),
 
+    /// An entry's esize does not fit in the esize field width of the header
+    #[error("eSize {esize} does not fit in {esize_bytes} byte(s)")]
+    EsizeTooLarge {
+        /// The estimated size that was given
+        esize: u64,
+        /// Width of the esize field in bytes
+        esize_bytes: u8,
+    },
+
     /// Entry count mismatch between header and parsed entries
     #[error("Entry count mismatch: header says {expected}, found {actual}")]
     EntryCountMismatch {
